@@ -169,7 +169,7 @@ func ValidateDomainPart(domain string) bool {
 	if ln >= 4 && domain[0] == '[' && domain[ln-1] == ']' {
 		// Bracketed domains must contain an IP address.
 		s := 1
-		if strings.HasPrefix(domain[1:], "IPv6:") {
+		if ln > 6 && strings.ToLower(domain[1:6]) == "ipv6:" {
 			s = 6
 		}
 		ip := net.ParseIP(domain[s : ln-1])
@@ -251,10 +251,11 @@ func extractDomainMailbox(address string) (string, error) {
 }
 
 // lowerDomainName lower-cases a domain name, so that every spelling of a domain names the same
-// mailbox.  Address literals ("[1.2.3.4]", "[IPv6:...]") are returned unchanged.
+// mailbox.  In an address literal the hexadecimal digits are lower-cased and the tag is spelled
+// "IPv6:" ("[1.2.3.4]", "[IPv6:2001:db8::1]").
 func lowerDomainName(domain string) string {
-	if strings.HasPrefix(domain, "[") {
-		return domain
+	if len(domain) > 6 && domain[0] == '[' && strings.ToLower(domain[1:6]) == "ipv6:" {
+		return "[IPv6:" + strings.ToLower(domain[6:])
 	}
 	return strings.ToLower(domain)
 }
